@@ -28,7 +28,7 @@ ASSUMPTIONS = [
 
 
 def lanes(tier):
-    return [("plain", "plain", 300 if tier == "quick" else 5000)]
+    return [("plain", "plain", 300 if tier == "quick" else 40000)]
 
 
 def gen_case(rng):
